@@ -138,6 +138,7 @@ func c20Helpers() []c20Helper {
 	eq("CollectionPage.Equals", func(it ap.Item) bool { return ap.CollectionPage{ID: ob.ID}.Equals(it) })
 	eq("OrderedCollection.Equals", func(it ap.Item) bool { return ap.OrderedCollection{ID: ob.ID}.Equals(it) })
 	eq("OrderedCollectionPage.Equals", func(it ap.Item) bool { return ap.OrderedCollectionPage{ID: ob.ID}.Equals(it) })
+	eq("Link.Equals", func(it ap.Item) bool { return ap.Link{ID: ob.ID}.Equals(it) })
 	eq("ItemCollection.Equals", func(it ap.Item) bool { return ap.ItemCollection{ob.ID}.Equals(it) })
 	eq("ItemCollection.ItemsMatch", func(it ap.Item) bool { return ap.ItemCollection{ob.ID}.ItemsMatch(it) })
 	eq("IRI.ItemsMatch", func(it ap.Item) bool { return ob.ID.ItemsMatch(it) })
